@@ -133,7 +133,7 @@ def one_case(cid, rng, scheme, s, genic, cov, thorough):
     return c
 
 
-def dihybrid_case(cid, rng, s, genic):
+def dihybrid_case(cid, rng, s, genic, cov=False):
     """DH progeny of a cross between two NON-inbred individuals: the four parental haplotypes play the roles of the four
     inbred grandparents of the four-way scheme after its first hybridisation, so the four-way tables apply with the
     haplotypes as origins: entry [i, j] <-> four-way tuple [j.0, j.1, i.0, i.1]"""
@@ -144,7 +144,7 @@ def dihybrid_case(cid, rng, s, genic):
     mem = [1, 2, None, 1024][cid % 4]
     chroms = layout(rng, multi=mem in (1, 2))
     L = sum(len(c) for c in chroms)
-    n = rng.randrange(2, 4); T = rng.randrange(1, 3)
+    n = rng.randrange(2, 4); T = rng.choice([2, 3]) if cov else rng.randrange(1, 3)
     H = np.array([[rng.randrange(2) for _ in range(L)] for _ in range(2 * n)], dtype="int8")      # haplotype rows 2i, 2i+1
     if rng.random() < 0.3:
         H[1] = H[0]                                  # a homozygous individual among heterozygous ones
@@ -156,10 +156,13 @@ def dihybrid_case(cid, rng, s, genic):
                                    vrnt_chrgrp=chrgrp, vrnt_phypos=np.arange(1, L + 1, dtype="int64"), vrnt_genpos=genpos, vrnt_xoprob=np.full(L, 0.1))
     pg.group_vrnt()
     gm = DenseAdditiveLinearGenomicModel(beta=np.zeros((1, T)), u_misc=None, u_a=u, trait=np.array(["t%d" % t for t in range(T)], dtype=object))
-    name = "DenseDihybridDHAdditive%sVarianceMatrix" % ("Genic" if genic else "Genetic")
-    cls = getattr(importlib.import_module("pybrops.model.vmat." + name), name)
+    if cov:
+        name = "DenseDihybridDHAdditiveProgenyGeneticCovarianceMatrix"; pkg = "pybrops.model.pcvmat."
+    else:
+        name = "DenseDihybridDHAdditive%sVarianceMatrix" % ("Genic" if genic else "Genetic"); pkg = "pybrops.model.vmat."
+    cls = getattr(importlib.import_module(pkg + name), name)
     c = {"id": cid, "scheme": "4w", "K": 4, "D": D, "s": s, "genic": genic, "A": H.astype(int).tolist(), "u": u.astype(int).tolist(),
-         "rhoM": rho_matrix(chroms), "err": None, "cls": name, "mem": repr(mem), "cov": False}
+         "rhoM": rho_matrix(chroms), "err": None, "cls": name, "mem": repr(mem), "cov": cov}
     try:
         with time_limit(120), np.errstate(all="ignore"):
             if genic:
@@ -170,15 +173,15 @@ def dihybrid_case(cid, rng, s, genic):
             ok = True; ents = []
             for i in range(n):
                 for j in range(n):
-                    for t in range(T):
-                        x = M[i, j, t]
+                    for t, t2 in ([(a_, b_) for a_ in range(T) for b_ in range(T)] if cov else [(a_, a_) for a_ in range(T)]):
+                        x = M[i, j, t, t2] if cov else M[i, j, t]
                         if not np.isfinite(x):
                             ok = False; f = Fraction(0)
                         else:
                             f = Fraction(float(x)).limit_denominator(LIM)
                             if abs(float(f) - x) > 1e-9 * max(1.0, abs(x)):
                                 ok = False
-                        ents.append([[2 * j, 2 * j + 1, 2 * i, 2 * i + 1], t + 1, t + 1, f.numerator, f.denominator])
+                        ents.append([[2 * j, 2 * j + 1, 2 * i, 2 * i + 1], t + 1, t2 + 1, f.numerator, f.denominator])
             c["entries"] = ents; c["lat"] = ok
             c["labels"] = list(obj.taxa) == list(pg.taxa)
     except Exception as e:
@@ -292,10 +295,10 @@ def run(ctx):
         for s in (0, 1, 2):
             for _ in range(3 if thorough else 1):
                 allc.append(uc_case(len(allc) + 1, rng, s))
-        for s, genic in ((0, False), (1, False), (0, True), (1, False)):
+        for s, genic, cov in ((0, False, False), (1, False, False), (0, True, False), (1, False, False), (0, False, True), (1, False, True)):
             if ("4w", s) in have:
                 for _ in range(2 if thorough else 1):
-                    allc.append(dihybrid_case(len(allc) + 1, rng, s, genic))
+                    allc.append(dihybrid_case(len(allc) + 1, rng, s, genic, cov))
         verd = cases.validate(ctx, "ProgenyVar_Trace", "ProgenyVar_Trace.cfg",
                               [{k: v for k, v in c.items() if k not in ("cls", "mem", "cov", "labels")} for c in allc],
                               "ProgenyVar_Trace", chunk=3, procs=14, env={"TABLE_FILE": tf}, timeout=3000)
